@@ -18,6 +18,7 @@ def maxabs(case):
 PRED_SIG = {
     "P01": ("GHHV", 0),
     "P07": ("TTT", 0),
+    "P06": ("GHTT", 0), "P06S": ("T", 0),
 }
 for k, v in PRED_SIG.items(): corr.OPSIG[k] = v
 
@@ -47,6 +48,79 @@ PROPS["C07"] = dict(
     assumptions=["model = hand-written Gallina mirror of generator.h, bracket.h, vee.h, *Tangent_base.h (hat, smallAdj, GeneratorEvaluator, VeeEvaluatorImpl, InnerWeights); tied to /repo by exact comparison over the rational scalar on this run's cases",
                  "theorems are over Coq's classical reals (exact arithmetic, which is what the property's last sentence asks for); floating-point evaluation is only tested",
                  "Bundle tangents: covered by C11's bundle model once claimed"],
+)
+
+def sweep_tangent(g, gd, maxang=None, linmax=6):
+    """tangent with rotation magnitude log-uniform in [1e-9, pi) and linear magnitude log-uniform in [1e-3, 10^linmax],
+    chosen independently (the float sweeps of C02/C05/C06: accuracy must be uniform in both)"""
+    t = []
+    def logu(lo, hi):
+        e = g.r.uniform(lo, hi); k = int(e // 1); m = int(10 ** (e - k) * 1000)
+        return Fr(m, 1000) * Fr(10) ** k
+    for kind, n in gd.tparts:
+        if kind == "lin":
+            mag = logu(-3, linmax) if g.r.random() < 0.85 else Fr(0)
+            t += [mag * Fr(g.r.randint(-100, 100), 100) for _ in range(n)]
+        else:
+            th = logu(-9, 0.49) if maxang is None else logu(-9, maxang)
+            th = min(th, Fr(314, 100)) * g.r.choice([1, -1])
+            g.note("sweep_angle:1e%d" % int(__import__("math").floor(__import__("math").log10(abs(float(th))))))
+            if kind == "ang1": t += [th]
+            else: t += g.vec3_norm(th) if g.r.random() < 0.6 else g.vec3_any(th)
+    return t
+
+def gen_sweep(op, linmax=6):
+    """predicate case in which every tangent argument comes from sweep_tangent (other arguments as usual)"""
+    def f(g, gn):
+        c = corr.gen_case(g, gn, op, force_valid=True)
+        if g.r.random() < 0.6:
+            gd = corr.group(gn); sig = corr.OPSIG[op][0]
+            c["args"] = [sweep_tangent(g, gd, linmax=linmax) if k == "T" else a for k, a in zip(sig, c["args"])]
+        return c
+    return f
+
+def tangent_stats(c):
+    """(theta^2, max |linear component|) of the first tangent argument of a case"""
+    gd = corr.group(c["group"]) if not c["group"].startswith("B") else None
+    if gd is None: return None, None
+    sig = corr.OPSIG[c["op"]][0]
+    for k, a in zip(sig, c["args"]):
+        if k in "TU":
+            i = 0; th2 = Fr(0); lin = Fr(0)
+            for kind, n in gd.tparts:
+                part = a[i:i + n]; i += n
+                if kind == "lin": lin = max([lin] + [abs(x) for x in part])
+                else: th2 += sum(x * x for x in part)
+            return th2, lin
+    return None, None
+
+def gen_moderate_tangent(op):
+    """tangent whose components are all moderate (|.| <= 3): power series in ad_t converge quickly"""
+    def f(g, gn):
+        gd = corr.group(gn)
+        t = []
+        for kind, n in gd.tparts:
+            if kind == "lin": t += [Fr(g.r.randint(-300, 300), 100) * g.r.choice([1, 1, Fr(1, 1000), 0]) for _ in range(n)]
+            elif kind == "ang1": t += [g.angle(g.r.choice(["zero", "tiny", "below_thr", "at_thr", "above_thr", "small", "generic", "near_pi"]))]
+            else:
+                th = g.angle(g.r.choice(["zero", "tiny", "below_thr", "at_thr", "above_thr", "small", "small", "generic", "generic", "near_pi"]))
+                t += g.vec3_norm(th) if g.r.random() < 0.7 else g.vec3_any(th)
+        return dict(group=gn, op=op, mask="-", iarg=0, flt=0, args=[t])
+    return f
+
+PROPS["C06"] = dict(
+    vfiles=["Properties_C06.v"], level="proof",
+    groups=BASE_GROUPS,
+    corr_ops=["Rjac", "Ljac", "Rjacinv", "Ljacinv", "Adj", "SmallAdj"],
+    preds=[dict(op="P06", pairs=["hat(Adj(X)*s)=X*hat(s)*X^-1", "Adj(X*Y)=Adj(X)*Adj(Y)", "hat(smallAdj(t)*s)=[hat t,hat s]", "ljac(t)=rjac(-t)",
+                                 "rjac*rjacinv=I", "rjacinv*rjac=I", "ljac*ljacinv=I", "ljacinv*ljac=I", "Adj(exp t)=ljac*rjacinv", "Adj(X^-1)*Adj(X)=I"],
+                exact=[0, 1, 2, 3, 9], qtol=1e-6, dtol=1e-5, dscale=lambda c: (1 + maxabs(c)) ** 2, gen=gen_sweep("P06")),
+           dict(op="P06S", pairs=["ljac(t)=sum ad^k/(k+1)!", "Adj(exp t)=exp(ad_t)", "rjac(t)=sum (-ad)^k/(k+1)!"], scalars=("d",),
+                gen=gen_moderate_tangent("P06S"), dtol=1e-5, dscale=lambda c: (1 + maxabs(c)) ** 2)],
+    n=dict(quick=(25, 60), thorough=(300, 1500)),
+    assumptions=["model = hand-written Gallina mirror of rjac/ljac/rjacinv/ljacinv/adj/smallAdj of every group (incl. SE3::fillQ, SGal3 blocks, the numeric-inverse fallback as the exact inverse); tied to /repo by exact comparison over the rational scalar on this run's cases",
+                 "proved over the reals: the algebraic identities (AdjLaws) for all groups and the inverse-Jacobian identities listed in Properties_C06.v; the series characterisation and the remaining inverse identities are tested (predicate sweep, tolerance 1e-5 relative: the property says about 1e-6) not proved",
+                 "IEEE rounding is only tested"],
 )
 
 # ------------------------------------------------------------------ generic engine
@@ -80,7 +154,7 @@ def gen_pred_cases(g, P, n, groups=None, seed_args=None):
         for pd in P.get("preds", []):
             if pd.get("groups") and gn not in pd["groups"]: continue
             for k in range(n):
-                c = corr.gen_case(g, gn, pd["op"], force_valid=True)
+                c = pd["gen"](g, gn) if pd.get("gen") else corr.gen_case(g, gn, pd["op"], force_valid=True)
                 if seed_args is not None and k < n // 2:
                     c = transplant(c, seed_args, gn)
                 cases.append(c)
@@ -106,7 +180,9 @@ def eval_preds(P, pcases, log, scalars=("q", "d")):
     viol = []; stats = dict(pred_evaluations=0, pred_pairs=0, pred_build_errors=[])
     byop = {pd["op"]: pd for pd in P.get("preds", [])}
     for sc in scalars:
-        res, be = vcheck.run_impl(pcases, scalar=sc)
+        sub = [c for c in pcases if sc in byop[c["op"]].get("scalars", ("q", "d"))]
+        if not sub: continue
+        res, be = vcheck.run_impl(sub, scalar=sc)
         for n_, lg in be.items():
             stats["pred_build_errors"].append(n_)
             viol.append(("build", dict(binary=n_), "harness %s does not build against the current tree: %s" % (n_, lg[-400:]), dict(binary=n_, log=lg[-3000:]), False))
@@ -121,14 +197,25 @@ def eval_preds(P, pcases, log, scalars=("q", "d")):
                              dict(kind="predicate", scalar=sc, case=corr.case_json(c), result=r["impl"]), True))
                 continue
             stats["pred_pairs"] += len(outs) // 2
-            if sc == "q": bad = vcheck.pair_failures(outs, True)
+            if sc == "q" and "exact" not in pd: bad = vcheck.pair_failures(outs, True)
+            elif sc == "q":
+                # pairs listed in pd["exact"] must agree exactly; the others (identities that are only approximate
+                # over the rationals: oracle square roots, Taylor branches) within pd["qtol"]
+                ex = set(pd["exact"]); bad = []
+                s0 = pd["dscale"](c) if pd.get("dscale") else None
+                for k in range(len(outs) // 2):
+                    sel = [outs[2 * k], outs[2 * k + 1]]
+                    b_ = vcheck.pair_failures(sel, True) if k in ex else \
+                         vcheck.pair_failures(sel, False, tol=pd.get("qtol", 1e-9), scale_fn=(lambda k_, a, b, s, s0=s0: max(s, s0)) if s0 is not None else None)
+                    bad += [(k, why) for _, why in b_]
             else:
                 s0 = pd["dscale"](c) if pd.get("dscale") else None
                 bad = vcheck.pair_failures(outs, False, tol=pd["dtol"] if sc != "f" else pd.get("ftol", 1e-3),
                                            scale_fn=(lambda k, a, b, s, s0=s0: max(s, s0)) if s0 is not None else None)
+            th2, lin = tangent_stats(c) if bad else (None, None)
             for k, why in bad:
                 nm = pd["pairs"][k] if k < len(pd["pairs"]) else "pair%d" % k
-                viol.append(("pred", dict(group=c["group"], pred=c["op"], scalar=sc, pair=nm, _args=c["args"]),
+                viol.append(("pred", dict(group=c["group"], pred=c["op"], scalar=sc, pair=nm, _args=c["args"], theta2=th2, lin=lin),
                              "%s: %s fails over %s: %s" % (c["group"], nm, {"q": "exact rationals", "d": "double", "f": "float"}[sc], why),
                              dict(kind="predicate", scalar=sc, pair=nm, case=corr.case_json(c),
                                   lhs=[fs(x) if not isinstance(x, float) else str(x) for x in outs[2 * k]],
@@ -200,9 +287,12 @@ def run_property(pid, P, tier, seed):
     # dedupe: one violation per (kind, group, pred/op, pair, scalar)
     seen = set(); vio = []
     for k_, sig, what, rep, fi in raw:
-        key = (k_, sig.get("group"), sig.get("pred") or sig.get("op"), sig.get("pair"), sig.get("scalar"), sig.get("binary"), sig.get("file"), sig.get("site"))
+        v_ = Violation(pid, k_, sig, what, rep, fi)
+        kn = vcheck.match_known(v_, known)          # listed findings are separated BEFORE de-duplication, so an unlisted
+        key = (k_, sig.get("group"), sig.get("pred") or sig.get("op"), sig.get("pair"), sig.get("scalar"), sig.get("binary"),
+               sig.get("file"), sig.get("site"), kn.get("id", kn.get("what")) if kn else None)     # violation of the same pair is never hidden behind a listed one
         if key in seen: continue
-        seen.add(key); vio.append(Violation(pid, k_, sig, what, rep, fi))
+        seen.add(key); vio.append(v_)
     samples = []
     for r in results[:: max(1, len(results) // 4)][:4]:
         samples.append(dict(case=corr.case_line(0, r["case"])[:300], impl=r["impl"][:200], model=r["model"][:200]))
